@@ -48,16 +48,17 @@ prop("C15", "Directive recognition and continuation follow the documented gramma
 
 # ===================================================================================== C01
 
-EXPECTED_ARMS = {
-    # variant: (required significant callees, yields output)
-    "Empty": (set(), False),
-    "After": (set(), False),
-    "Run": ({JOIN, ROLE["shell_run"]}, True),
-    "Include": ({ROLE["try_resolve"], "std::fs::read_to_string"}, True),
-    "Temp": ({ROLE["execute_directive_temp"]}, False),
-    "Tag": ({ROLE["tag_create"]}, False),
-    "Write": ({JOIN}, True),
-}
+def expected_arms():
+    # variant: (required significant callees, yields output) — built per run: roles are re-anchored per program
+    return {
+        "Empty": (set(), False),
+        "After": (set(), False),
+        "Run": ({JOIN, ROLE["shell_run"]}, True),
+        "Include": ({ROLE["try_resolve"], "std::fs::read_to_string"}, True),
+        "Temp": ({ROLE["execute_directive_temp"]}, False),
+        "Tag": ({ROLE["tag_create"]}, False),
+        "Write": ({JOIN}, True),
+    }
 INSIGNIFICANT = re.compile(
     r"(^std::(vec|slice|option|result|string|iter|path|boxed|mem|borrow|ops|hint)::|^<std::(vec|string|path|option|slice|boxed)::|"
     r"^<T as std::string::ToString>::to_string$|IOCtx::make_error|^<I as std::iter::IntoIterator>|^<str as |^std::str::)")
@@ -99,7 +100,7 @@ def r01_1(ctx):
         reg = C.region(ed, e) - C.region(ed, others) if others else C.region(ed, e)
         calls = _effect_calls(ed, reg)
         sig = {C.callee_name(t) for bb, t in calls if significant(C.callee_name(t))}
-        want, yields = EXPECTED_ARMS[v]
+        want, yields = expected_arms()[v]
         site = ctx.site(ed, min(reg) if reg else 0)
         probs = []
         if sig != want:
@@ -338,12 +339,12 @@ def r11_5(ctx):
 
 HASH_ITER_EXEMPT = [
     (r"TagState::create$", "only decides WHICH conflicting tag is named in the error message; whether an error is returned is order-independent"),
-    (r"<txtpp::core::util::tag_state::TagState as std::fmt::Display>::fmt$", "diagnostic rendering of unused tags"),
+    (r"TagState as std::fmt::Display>::fmt$", "diagnostic rendering of unused tags"),
     (r"DepManager::notify_finish$", "builds a HashSet of released dependers: order-insensitive"),
     (r"DepManager::take_remaining$", "builds a HashMap of left-over edges: order-insensitive"),
-    (r"dependency::print_dep_map$", "diagnostic rendering of a dependency cycle"),
+    (r"(^|::)print_dep_map$", "diagnostic rendering of a dependency cycle"),
     (r"Txtpp::run_internal$", "spawn order of released dependers: a scheduling choice, results are per-file"),
-    (r"<txtpp::core::execute::Txtpp as std::fmt::Debug>::fmt$|as std::fmt::Debug>::fmt$", "derived Debug"),
+    (r"as std::fmt::Debug>::fmt$", "derived Debug"),
 ]
 
 
@@ -562,7 +563,7 @@ def r15_1(ctx):
         if odd:
             ctx.violation(["name-match-style", ",".join(sorted(set(odd)))], "directive names are matched with %s (exact equality documented)" % sorted(set(odd)),
                           site=ctx.site(tf, 0))
-    c = lib.consts.get("txtpp::core::execute::pp::directive::directive_from::TXTPP_HASH")
+    c = const_by_name(lib, "TXTPP_HASH")
     if c and c["value"] == '"TXTPP#"':
         ctx.ok("TXTPP_HASH == \"TXTPP#\"")
     else:
@@ -766,7 +767,7 @@ def r15_5(ctx):
 def r11_6(ctx):
     """the extension constant and the functions that test / strip it"""
     lib = ctx.lib
-    c = lib.consts.get("txtpp::fs::path::abs_path::TXTPP_EXT")
+    c = const_by_name(lib, "TXTPP_EXT")
     if c and c["value"] == '"txtpp"':
         ctx.ok("TXTPP_EXT == \"txtpp\"")
     else:
